@@ -116,7 +116,9 @@ def table(path, lo_unix, hi_unix):
             extra = [(t, (u, d, a)) for (t, u, d, a) in posix_transitions(p, y0, y1) if t > last]
             tr += extra
     else:
-        assert times
+        # no footer: zic could not express the future as a POSIX string; the explicit transitions are all there is
+        if not times and not tt:
+            raise ValueError('TZif without transitions, types or footer: ' + path)
     # state at lo
     state = None
     for t, inf in tr:
